@@ -224,6 +224,12 @@ pub fn run_scenario(sc: &Scenario) -> ScenarioOut {
                 let pipes2 = pipes2.clone();
                 async move {
                     let n = pn.fetch_add(1, Ordering::SeqCst);
+                    if n > 3000 {
+                        // a reconnect storm: refuse, so that the scenario ends (the calls then fail
+                        // and are judged as such) instead of eating the machine's memory
+                        l2.push("reconnect_storm", "", "");
+                        return Err(std::io::Error::other("verif: connector invoked more than 3000 times in one scenario"));
+                    }
                     let id = format!("conn{}.{}", ci, n);
                     let (a, b, hnd) = pipe(&id, pcfg, Rng::new(seed ^ (n + 1) * 7919), Some(l2.clone()));
                     pipes2.lock().unwrap().push(hnd);
